@@ -504,6 +504,10 @@ class ExprMixin:
         raise OutOfSubset(f"== on {a!r}, {b!r}")
 
     def contains(self, item: V, cont: V):
+        for h in getattr(self.world, "contains_hooks", ()):
+            r = h(self, item, cont)
+            if r is not None:
+                return r
         if isinstance(cont, (VTuple, VList)):
             return z3.Or([self.eq(item, x) for x in cont.items] + [z3.BoolVal(False)])
         if isinstance(cont, VPy) and isinstance(cont.obj, tuple) and cont.obj and cont.obj[0] in ("set", "frozenset"):
